@@ -111,6 +111,11 @@ pub fn run(opts: &Opts, rep: &mut Report) {
         None => Box::new(0..opts.cases),
     };
     let mut shared = Matcher::default();
+    let mut cloned = Copies {
+        target: Pattern::parse("", CaseMatching::Smart, Normalization::Smart),
+        atom: Atom::new("x", CaseMatching::Smart, Normalization::Smart, AtomKind::Fuzzy, false),
+        multi: Vec::new(),
+    };
     for idx in range {
         if idx % 128 == 0 && rep.elapsed() > opts.time_limit {
             rep.note(format!("time limit reached after {idx} cases"));
@@ -120,7 +125,7 @@ pub fn run(opts: &Opts, rep: &mut Report) {
         let case_id = format!("{}:{}:{}", opts.seed, opts.shard, idx);
         rep.count("cases");
         // a panic inside the pattern API is a violation (attributed by its location), not a monitor crash
-        let res = crate::refm::caught(|| one_case(opts, idx, &mut rng, &case_id, &mut shared, rep));
+        let res = crate::refm::caught(|| one_case(opts, idx, &mut rng, &case_id, &mut shared, &mut cloned, rep));
         if let Err(msg) = res {
             shared = Matcher::default();
             let loc = msg.rsplit(" @ ").next().unwrap_or("").to_owned();
@@ -133,7 +138,14 @@ pub fn run(opts: &Opts, rep: &mut Report) {
     }
 }
 
-fn one_case(opts: &Opts, idx: u64, rng: &mut Rng, case_id: &str, mut shared: &mut Matcher, rep: &mut Report) {
+/// long lived copies that are updated with `clone_from` case after case
+pub struct Copies {
+    target: Pattern,
+    atom: Atom,
+    multi: Vec<Option<MultiPattern>>,
+}
+
+fn one_case(opts: &Opts, idx: u64, rng: &mut Rng, case_id: &str, mut shared: &mut Matcher, cloned: &mut Copies, rep: &mut Report) {
     let case_id = case_id.to_owned();
     let _ = opts;
     {
@@ -245,6 +257,41 @@ fn one_case(opts: &Opts, idx: u64, rng: &mut Rng, case_id: &str, mut shared: &mu
                 format!("atoms={natoms}"),
                 detail(format!("indices {:?}, composition {:?}", &junk, exp_idx)),
             );
+        }
+
+        // ---- copies behave like the original: Clone / clone_from of patterns, atoms and multi patterns (the matcher keeps
+        // long lived copies that are updated with clone_from)
+        {
+            cloned.target.clone_from(&pattern);
+            let fresh_clone = pattern.clone();
+            let got_cf = cloned.target.score(hay.slice(..), &mut shared);
+            let got_cl = fresh_clone.score(hay.slice(..), &mut shared);
+            rep.count("c15.copies-checked");
+            if cloned.target.atoms != pattern.atoms || got_cf != exp_score || got_cl != exp_score || fresh_clone.atoms != pattern.atoms {
+                rep.violation(
+                    "C15",
+                    "copy-of-a-pattern-behaves-differently",
+                    format!("clone_from={} clone={}", got_cf != exp_score || cloned.target.atoms != pattern.atoms, got_cl != exp_score),
+                    detail(format!(
+                        "original scores {exp_score:?}; a long lived pattern updated with clone_from scores {got_cf:?} (atoms {:?}), a clone scores {got_cl:?}",
+                        cloned.target.atoms
+                    )),
+                );
+                cloned.target = Pattern::parse("", CaseMatching::Smart, Normalization::Smart);
+            }
+            if let Some(a) = pattern.atoms.first() {
+                cloned.atom.clone_from(a);
+                let inner = a.score(hay.slice(..), &mut shared);
+                let got = cloned.atom.score(hay.slice(..), &mut shared);
+                if cloned.atom != *a || got != inner {
+                    rep.violation(
+                        "C15",
+                        "copy-of-a-pattern-behaves-differently",
+                        "atom clone_from".into(),
+                        detail(format!("atom {a:?} scores {inner:?}; a long lived atom updated with clone_from is {:?} and scores {got:?}", cloned.atom)),
+                    );
+                }
+            }
         }
 
         // ---- single atom API incl. negation
@@ -387,6 +434,25 @@ fn one_case(opts: &Opts, idx: u64, rng: &mut Rng, case_id: &str, mut shared: &mu
             }
             let got = mp.score(&hays, &mut shared);
             rep.count("c15.multi-column-checked");
+            if cloned.multi.len() < 4 {
+                cloned.multi.resize_with(4, || None);
+            }
+            let slot = &mut cloned.multi[cols];
+            match slot {
+                Some(t) => t.clone_from(&mp),
+                None => *slot = Some(mp.clone()),
+            }
+            let got_copy = slot.as_ref().unwrap().score(&hays, &mut shared);
+            if got_copy != exp {
+                rep.violation(
+                    "C15",
+                    "copy-of-a-pattern-behaves-differently",
+                    format!("multi pattern cols={cols}"),
+                    jobj! {"texts" => format!("{texts:?}"), "haystacks" => format!("{hays:?}"),
+                           "long_lived_copy_updated_with_clone_from" => format!("{got_copy:?}"), "expected" => format!("{exp:?}"), "case_id" => case_id.clone()},
+                );
+                *slot = None;
+            }
             if got != exp {
                 rep.violation(
                     "C15",
